@@ -274,9 +274,18 @@ def run(ctx, rep, tier):
     for uid, val, texts in units(fp):
         if "/loop@" in uid and "self.state_object_spec" in uid:
             loop_ids.setdefault(uid, []).append((val, texts))
-    if len(loop_ids) != 2:
-        raise AnalysisError("start(): expected two loops over the outputs")
-    second = sorted(loop_ids)[1]
+    if len(loop_ids) == 2:      # no initial-terminator loop: C03.n reports that; nothing representation-dependent to compare here
+        loop_ids["~none/loop@999999"] = []
+    if len(loop_ids) != 3:
+        raise AnalysisError("start(): expected three loops over the outputs (defaults, heap init, initial terminator)")
+    second = sorted(loop_ids, key=lambda u: int(re.search(r"loop@(\d+)", u).group(1)))[1]
+    third = sorted(loop_ids, key=lambda u: int(re.search(r"loop@(\d+)", u).group(1)))[2]
+    # named exception to 'identical in all modes': with on-demand allocation there is no buffer yet, so the initial terminator write is absent (NULL stands for the empty string)
+    for val, texts in loop_ids[third]:
+        body = [t.strip() for t in texts if t.strip() and not t.strip().startswith("//") and not t.strip().startswith("@@")]
+        on_demand = val.get("F:ALLOCATE_STR_SPACE_DYNAMIC_ON_DEMAND") is True
+        rep.check(all(re.fullmatch(r"state->c\.\[\[out_expr\.name\]\]\[0\] = 0;", t) for t in body) and not (on_demand and body), "C12.e", "CodegenCtx._generate_start_implementation",
+                  "initial-terminator loop emits only `x[0] = 0`, and nothing under on-demand allocation", f"the terminator loop of start() emits {body} (on-demand: {on_demand})")
     for val, texts in loop_ids[second]:
         rest = norm_mem(texts, val)
         rep.check(rest == [] and val.get("F:ALLOCATE_STR_SPACE_DYNAMIC") is True, "C12.e", "CodegenCtx._generate_start_implementation",
@@ -311,7 +320,7 @@ def run_range(ctx, rep):
 
 
 def norm_mem_start(texts, v):
-    out = norm_mem(texts, v)
+    out = [t for t in norm_mem(texts, v) if not re.fullmatch(r"state->c\.\[\[out_expr\.name\]\]\[0\] = 0;", t)]      # initial terminator: checked separately (C12.e, third loop)
     # the second loop over the outputs exists only under DYNAMIC; its body may emit allocation events only (checked separately)
     seen = set()
     res = []
